@@ -117,3 +117,46 @@ pub assume_specification[i64::from_str_radix](s: &str, radix: u32) -> (r: Result
 
 /// the literal `""` (Verus does not know the length of a string literal without `reveal_strlit`)
 #[verifier::external_body] pub fn empty_str() -> (r: &'static str) ensures r@ == Seq::<char>::empty() { "" }
+
+// ---- join
+/// `Array::val_iter()`: the sequence part in order, then the dictionary values (in HashMap order: unspecified — C10)
+pub uninterp spec fn sp_vals(a: Array) -> Seq<Val>;
+pub uninterp spec fn sp_join(parts: Seq<Seq<char>>, d: Seq<char>) -> Seq<char>;     // Itertools::join
+impl Array {
+    /// `self.val_iter().collect::<Vec<&Val>>()`
+    #[verifier::external_body]
+    pub fn val_list(&self) -> (r: Vec<&Val>)
+        ensures r@.len() == sp_vals(*self).len(), forall|i: int| 0 <= i < r@.len() ==> *(#[trigger] r@[i]) == sp_vals(*self)[i],
+            (sp_vals(*self).len() == 0) == (self.arr@.len() == 0 && self.dict@.dom() =~= Set::<DKey>::empty()),
+    { unimplemented!() }
+    /// Array::is_empty (proved in unit val_arrays)
+    #[verifier::external_body]
+    pub fn is_empty(&self) -> (r: bool) ensures r == (self.arr@.len() == 0 && self.dict@.dom() =~= Set::<DKey>::empty()), r == (sp_vals(*self).len() == 0) { unimplemented!() }
+}
+/// `iter.map(f)` collected: f is applied to every element (so its precondition must hold for every element)
+#[verifier::external_body]
+pub fn map_refs<'a, F: Fn(&&'a Val) -> &'a Rc<String>>(v: &Vec<&'a Val>, f: F) -> (r: Vec<&'a Rc<String>>)
+    requires forall|i: int| 0 <= i < v@.len() ==> f.requires((&#[trigger] v@[i],)),
+    ensures r@.len() == v@.len(), forall|i: int| 0 <= i < v@.len() ==> f.ensures((&v@[i],), #[trigger] r@[i]),
+{ unimplemented!() }
+#[verifier::external_body]
+pub fn join_refs(parts: Vec<&Rc<String>>, d: &str) -> (r: String)
+    ensures r@ == sp_join(parts@.map_values(|p: &Rc<String>| p@), d@)
+{ unimplemented!() }
+pub open spec fn all_string_vals(q: Seq<Val>) -> bool { forall|i: int| 0 <= i < q.len() ==> (#[trigger] q[i]) is String }
+pub open spec fn join_ok(a: Array, dl: Seq<char>, new: Val, r: Result<(), ValError>) -> bool {
+    if sp_vals(a).len() == 0 { r is Ok && new.v() == SVal::String(Seq::<char>::empty()) }
+    else if all_string_vals(sp_vals(a)) { r is Ok && new.v() == SVal::String(sp_join(strings_of(sp_vals(a)), dl)) }
+    else { exists|i: int| 0 <= i < sp_vals(a).len() && !(sp_vals(a)[i] is String) && r == Err::<(), ValError>(ValError::InvalidArrayElementForJoin(#[trigger] sp_vals(a)[i])) }
+}
+pub open spec fn join_spec(old: Val, delim: Option<Val>, new: Val, r: Result<(), ValError>) -> bool {
+    match old {
+        Val::Array(a) => match delim {
+            None => join_ok(*a, Seq::<char>::empty(), new, r),
+            Some(Val::String(d)) => join_ok(*a, d@, new, r),
+            Some(d) => r == Err::<(), ValError>(ValError::InvalidJoinDelimiter(d)),
+        },
+        // (operand unchanged on this path: Kani c07__wrong_kind_unchanged — Verus guard quirk, see split)
+        _ => (match r { Err(ValError::InvalidOperationForType(w, v)) => v == old && w@ == "join"@, _ => false }),
+    }
+}
